@@ -2062,7 +2062,7 @@ extern void *qthread_fence2;
 void API_FUNC qthread_call_method(qthread_f f, void*arg, void* ret, uint16_t flags){
     if (ret) {
         if (flags & QTHREAD_RET_IS_SINC) {
-            if (flags & QTHREAD_RET_IS_VOID_SINC) {
+            if ((flags & QTHREAD_RET_IS_VOID_SINC) == QTHREAD_RET_IS_VOID_SINC) {
                 (f)(arg);
                 qt_sinc_submit((qt_sinc_t *)ret, NULL);
             } else {
@@ -2164,7 +2164,7 @@ static void qthread_wrapper(void *ptr)
     else if (t->ret) {
         qthread_debug(THREAD_DETAILS, "tid %u, with flags %u, handling retval\n", t->thread_id, t->flags);
         if (t->flags & QTHREAD_RET_IS_SINC) {
-            if (t->flags & QTHREAD_RET_IS_VOID_SINC) {
+            if ((t->flags & QTHREAD_RET_IS_VOID_SINC) == QTHREAD_RET_IS_VOID_SINC) {
                 (t->f)(t->arg);
                 if (NULL != t->team) { qt_internal_teamfinish(t->team, t->flags); }
                 qt_sinc_submit((qt_sinc_t *)t->ret, NULL);
